@@ -6516,6 +6516,7 @@ impl RelationalEngine {
         // Mark as committing
         self.tx_manager.set_phase(tx_id, TxPhase::Committing);
 
+
         // Release locks
         self.tx_manager.release_locks(tx_id);
 
@@ -6557,6 +6558,7 @@ impl RelationalEngine {
             let errors = self.apply_undo_entry(&entry);
             all_errors.extend(errors);
         }
+
 
         // ALWAYS release locks and clean up, even if undo had errors
         self.tx_manager.release_locks(tx_id);
@@ -6762,11 +6764,31 @@ impl RelationalEngine {
 
         let row_id = slab_row_id.as_u64() + 1;
 
+        // Lock the new row for this transaction: until it commits or rolls back no
+        // other transaction may update or delete the row (a rollback removes it, so a
+        // concurrent change or delete could not be undone consistently).
+        if let Err(info) = self
+            .tx_manager
+            .lock_manager()
+            .try_lock(tx_id, &[(table.to_string(), row_id)])
+        {
+            // Row ids are never reused, so this is unreachable in practice; do not
+            // leave an unlocked, un-undoable row behind.
+            let _ = self.slab().delete(table, slab_row_id);
+            return Err(RelationalError::LockConflict {
+                tx_id,
+                blocking_tx: info.blocking_tx,
+                table: info.table,
+                row_id: info.row_id,
+            });
+        }
+
         // Update row counter
         self.row_counters
             .entry(table.to_string())
             .or_insert_with(|| AtomicU64::new(0))
             .fetch_max(row_id, Ordering::Relaxed);
+
 
         // Update indexes
         let indexed_columns = self.get_table_indexes(table);
@@ -6786,6 +6808,7 @@ impl RelationalEngine {
                 self.btree_index_add(table, col, value, row_id)?;
             }
         }
+
 
         // Capture index entries for rollback (must happen AFTER index updates)
         let mut index_entries: Vec<(String, Value)> = Vec::new();
@@ -6876,6 +6899,7 @@ impl RelationalEngine {
             .collect();
         let matching_rows = matching_rows?;
 
+
         // Acquire locks on all matching rows
         let rows_to_lock: Vec<(String, u64)> = matching_rows
             .iter()
@@ -6894,6 +6918,7 @@ impl RelationalEngine {
                 })?;
         }
 
+
         // Convert updates to slab format
         let slab_updates: Vec<(String, SlabColumnValue)> = updates
             .iter()
@@ -6901,6 +6926,7 @@ impl RelationalEngine {
             .collect();
 
         for (slab_row_id, row, old_slab_values) in &matching_rows {
+
             // Capture index changes for undo
             let mut index_changes = Vec::new();
             for col in indexed_columns.iter().chain(btree_columns.iter()) {
@@ -6995,6 +7021,7 @@ impl RelationalEngine {
             .collect();
         let to_delete = to_delete?;
 
+
         // Acquire locks on all rows to delete
         let rows_to_lock: Vec<(String, u64)> = to_delete
             .iter()
@@ -7013,7 +7040,9 @@ impl RelationalEngine {
                 })?;
         }
 
+
         for (slab_row_id, row, old_slab_values) in &to_delete {
+
             // Capture index entries for undo
             let mut index_entries: Vec<(String, Value)> = Vec::new();
             for col in indexed_columns.iter().chain(btree_columns.iter()) {
